@@ -1612,13 +1612,13 @@ theorem step_alloc (e : EntId) (pk : Option Nat) (st : St) (hn : st.store.n = s0
     Step s0 st ((st.setStore (st.store.alloc e pk)).log (.created st.store.n e pk)) := by
   unfold Store.alloc
   apply Step.push
-  · intro g q
-    obtain ⟨h1, h2⟩ := g.save q
+  · intro g q hqn
     cases pk <;>
-    · simp only
+    · simp only at hqn ⊢
       by_cases hq : q = st.store.n
       · simp [hq]
-      · simp only [hq, if_false]; exact ⟨h1, h2⟩
+      · obtain ⟨h1, h2⟩ := g.save q (by omega)
+        simp only [hq, if_false]; exact ⟨h1, h2⟩
   · cases pk <;> exact Nat.le_succ _
   · intro g t ht
     have hlt : ∀ q, q < s0.n → q ≠ st.store.n := fun q hq => by rw [hn]; exact Nat.ne_of_lt hq
@@ -1789,6 +1789,21 @@ theorem failing_call_restores (op : Op) (s : Store) (e : Err) (st' : St) (hs : S
   have g0 : Good s ({ store := s } : St) := ⟨hs, Nat.le_refl _, fun t ht => ht.symm⟩
   have g := errGood_run1 (sch := sch) op s hk e st' h g0
   exact g.restores st'.store (Eqv.refl _ _)
+
+/-- the well-formedness facts about a store depend only on what `Eqv` compares -/
+theorem SaveOk.of_eqv {s R : Store} (h : SaveOk s) (he : Eqv s.n R s) : SaveOk R := by
+  intro o ho
+  have ho' : o < s.n := he.n ▸ ho
+  obtain ⟨h1, h2⟩ := h o ho'
+  rw [he.row o ho', he.toSave]
+  exact ⟨h1, h2⟩
+
+theorem IdxOk.of_eqv {s R : Store} (h : IdxOk sch s) (he : Eqv s.n R s) : IdxOk sch R := by
+  intro o ho hl
+  have ho' : o < s.n := he.n ▸ ho
+  rw [he.row o ho'] at hl
+  have hk := h o ho' hl
+  exact hk.of_eq he.idx he.cidx (by rw [he.row o ho'])
 
 end top
 
